@@ -57,7 +57,19 @@ def oracle_cases(tier, rng):
                     yield dict(dir='inv', kind='2d', wave=wc, wave_row=wr, mode=mode, J=1, H=H, W=W, axes=[(H, Lc), (W, Lr)], subset=s, seed=int(rng.integers(1 << 30)))
 
 
+    # user-supplied filters of ODD length (3 and 5 taps, not a reconstructing pair - the Jacobian identity needs none), zero mode
+    for L in (3, 5):
+        for J in (1, 2):
+            for N in (8, 11):
+                yield dict(dir='fwd', kind='1d', wave='haar', taps=L, mode='zero', J=J, N=N, axes=[(N, L)], subset=None, seed=int(rng.integers(1 << 30)))
+                yield dict(dir='inv', kind='1d', wave='haar', taps=L, mode='zero', J=J, N=N, axes=[(N, L)], subset=[1] * (J + 1), seed=int(rng.integers(1 << 30)))
+            yield dict(dir='fwd', kind='2d', wave='haar', taps=L, mode='zero', J=J, H=8, W=11, axes=[(8, L), (11, L)], subset=None, seed=int(rng.integers(1 << 30)))
+            yield dict(dir='inv', kind='2d', wave='haar', taps=L, mode='zero', J=J, H=8, W=11, axes=[(8, L), (11, L)], subset=[1] * (J + 1), seed=int(rng.integers(1 << 30)))
+
+
 def strat_key(cfg):
+    if cfg.get('taps'):
+        return '%s/%s/odd%d/J%d' % (cfg['dir'], cfg['kind'], cfg['taps'], cfg['J'])
     return '%s/%s%s/%s/J%d/%s' % (cfg['dir'], cfg['kind'], '-mixed' if cfg.get('wave_row') else '', cfg['mode'], cfg['J'], 'all' if cfg['subset'] is None else ''.join(map(str, cfg['subset'])))
 
 
@@ -73,8 +85,14 @@ def oracle_run(cfg):
     d1 = cfg['kind'] == '1d'
     shp = (1, 1, cfg['N']) if d1 else (1, 1, cfg['H'], cfg['W'])
     from props import c01
-    fwd = (DWT1DForward if d1 else DWTForward)(J=J, wave=wn if d1 else c01.wave_arg(cfg, 'dec'), mode=lib_mode(cfg))
-    inv = (DWT1DInverse if d1 else DWTInverse)(wave=wn if d1 else c01.wave_arg(cfg, 'rec'), mode=lib_mode(cfg))
+    if cfg.get('taps'):
+        rt = np.random.default_rng(cfg['taps'])
+        pair = (rt.standard_normal(cfg['taps']), rt.standard_normal(cfg['taps']))
+        fwd = (DWT1DForward if d1 else DWTForward)(J=J, wave=pair, mode=mode)
+        inv = (DWT1DInverse if d1 else DWTInverse)(wave=pair, mode=mode)
+    else:
+        fwd = (DWT1DForward if d1 else DWTForward)(J=J, wave=wn if d1 else c01.wave_arg(cfg, 'dec'), mode=lib_mode(cfg))
+        inv = (DWT1DInverse if d1 else DWTInverse)(wave=wn if d1 else c01.wave_arg(cfg, 'rec'), mode=lib_mode(cfg))
     try:
         if cfg['dir'] == 'fwd':
             n_in = int(np.prod(shp))
